@@ -119,3 +119,13 @@ package tchannel
 //@ func (c *Connection) beginCall(ctx context.Context, serviceName, methodName string, callOptions *CallOptions) (call *OutboundCall, err error)
 //@   effect bounded
 //@   property C05
+
+// Giving up the wait for the connection-creation lock reports the caller's own
+// reason: cancellation as "cancelled", an expired deadline as "timeout".
+// (ctxerr(ctx) = the error the context reports once it is done.)
+//@ func (p *Peer) lockNewConn(ctx context.Context) (err error)
+//@   label cancellation-is-reported-as-cancelled
+//@   ensures err != nil && ctxerr(ctx) == context.Canceled ==> err == ErrRequestCancelled
+//@   label expiry-is-reported-as-timeout
+//@   ensures err != nil && ctxerr(ctx) == context.DeadlineExceeded ==> err == ErrTimeout
+//@   property C20
